@@ -481,7 +481,7 @@ def run_property(pid, tier, seed, replay=None, keep=False, only_unit=None):
         log.close()
         if status != 0 or keep or os.environ.get("VERIF_KEEP"):
             # keep only the log, never the binaries
-            dst = os.path.join(VERIF, ".work", "last-%s-%s.log" % (pid, tier))
+            dst = os.path.join(VERIF, ".work", "last-%s%s-%s.log" % ("alt-" if repo_dir() != "/repo" else "", pid, tier))
             try:
                 shutil.copy(os.path.join(work, "driver.log"), dst)
             except Exception:
